@@ -1226,6 +1226,9 @@ func runC11R6(c *Ctx, r *Rep) {
 	type where struct {
 		fn, expr string
 		pos      token.Pos
+		node     ast.Expr
+		fd       *ast.FuncDecl
+		info     *types.Info
 	}
 	idx := map[string]where{}
 	for _, rel := range pipelinePkgs {
@@ -1255,7 +1258,7 @@ func runC11R6(c *Ctx, r *Rep) {
 						return true
 					}
 					pp := c.Fset.Position(lb)
-					idx[fmt.Sprintf("%s:%d:%d", filepath.Base(pp.Filename), pp.Line, pp.Column)] = where{id, exprStr(e), lb}
+					idx[fmt.Sprintf("%s:%d:%d", filepath.Base(pp.Filename), pp.Line, pp.Column)] = where{id, exprStr(e), lb, e, fd, p.TypesInfo}
 					return true
 				})
 				// inlined calls: the compiler reports the callee's bounds check at the call's opening parenthesis
@@ -1269,7 +1272,7 @@ func runC11R6(c *Ctx, r *Rep) {
 					if _, dup := idx[k]; dup {
 						return true
 					}
-					w := where{id, "call " + exprStr(call), call.Lparen}
+					w := where{fn: id, expr: "call " + exprStr(call), pos: call.Lparen}
 					if f := Callee(p.TypesInfo, call); f != nil && !inModule(f) {
 						w.expr = "stdlib:" + FuncID(f)
 					} else if tv, ok := p.TypesInfo.Types[call.Fun]; ok && tv.IsType() {
@@ -1287,6 +1290,7 @@ func runC11R6(c *Ctx, r *Rep) {
 		pos  token.Pos
 		fn   string
 		kind string
+		w    where
 	}
 	byKey := map[string]*agg{}
 	var order []string
@@ -1306,7 +1310,7 @@ func runC11R6(c *Ctx, r *Rep) {
 		n++
 		key := fmt.Sprintf("%s|%s", w.fn, w.expr)
 		if byKey[key] == nil {
-			byKey[key] = &agg{pos: w.pos, fn: w.fn, kind: s.kind}
+			byKey[key] = &agg{pos: w.pos, fn: w.fn, kind: s.kind, w: w}
 			order = append(order, key)
 		}
 		byKey[key].n++
@@ -1320,6 +1324,10 @@ func runC11R6(c *Ctx, r *Rep) {
 		case !ok && len(knownIndexSites) > 0 && !isKnownSite(a.fn, strings.SplitN(key, "|", 2)[1]):
 			// an access that did not exist when the reference was written: new code, not a guard that was removed
 			r.okTrivial("bce|"+key, a.pos, "unproven by the compiler (%d×) in code written since the reference: not decided by this rule, which answers whether an existing access lost its guard", a.n)
+		case !ok && a.w.node != nil && descendingIndexInBounds(a.w.info, a.w.fd, a.w.node):
+			// the compiler's prover lost it (a loop was reshaped), but the access is in bounds by a simple argument:
+			// the index starts at len(s)-1, only ever decreases, s is not reassigned meanwhile, and a test i >= 0 governs it
+			r.okTrivial("bce|"+key, a.pos, "unproven by the compiler (%d×) but in bounds: the index starts at len-1, only decreases, and is tested against 0 before the access", a.n)
 		case !ok:
 			r.bad("bce|"+key, a.pos, "the Go compiler cannot prove this %s in bounds (%d occurrence(s)); the access exists in the reference tree, where it was proven (it is not among the reviewed unproven sites): the test that kept it in bounds was removed or weakened, so for some source text it panics with an index/slice out of range, which the stage barrier reports as SystemError", map[string]string{"IsInBounds": "index", "IsSliceInBounds": "slice"}[a.kind], a.n)
 		case a.n > cb.n:
@@ -1445,4 +1453,171 @@ func assembledPanic(rel, id, label string) string {
 	}
 	sort.Strings(keys)
 	return confirmedUnreachable[keys[0]]
+}
+
+// descendingIndexInBounds: s[i], s[:i+1] or s[i+1:] where the local i is initialised to len(s)-1, every other
+// assignment to i decreases it, s is not assigned between, and the access is governed by a test that i is not negative
+// (an enclosing condition i >= 0, or an earlier `if i < 0 { leave }` in an enclosing block, or the loop condition).
+func descendingIndexInBounds(info *types.Info, fd *ast.FuncDecl, e ast.Expr) bool {
+	var base ast.Expr
+	var idxs []ast.Expr
+	switch x := e.(type) {
+	case *ast.IndexExpr:
+		base, idxs = x.X, []ast.Expr{x.Index}
+	case *ast.SliceExpr:
+		base = x.X
+		for _, b := range []ast.Expr{x.Low, x.High} {
+			if b != nil {
+				idxs = append(idxs, b)
+			}
+		}
+	default:
+		return false
+	}
+	bs := exprStr(base)
+	for _, ix := range idxs {
+		ix = unparen(ix)
+		if be, ok := ix.(*ast.BinaryExpr); ok && be.Op == token.ADD {
+			if k, ok := constInt(info, be.Y); ok && k == 1 {
+				ix = unparen(be.X) // i+1 as a slice bound: 0 <= i+1 <= len when -1 <= i <= len-1
+			}
+		}
+		id, ok := ix.(*ast.Ident)
+		if !ok {
+			return false
+		}
+		obj := info.Uses[id]
+		if obj == nil {
+			return false
+		}
+		// assignments to i: one initialisation len(s)-1, the others decrements
+		inits, bad := 0, false
+		ast.Inspect(fd.Body, func(n ast.Node) bool {
+			switch x := n.(type) {
+			case *ast.AssignStmt:
+				for k, l := range x.Lhs {
+					if lid := identOf(l); lid == nil || info.ObjectOf(lid) != obj {
+						// an assignment to the sequence itself while i is live (one in a block that then leaves the
+						// function or the iteration is not on the way to the access)
+						if exprStr(l) == bs && x.Pos() < e.Pos() && x.Pos() > obj.Pos() && !leavesAfter(fd.Body, x) {
+							bad = true
+						}
+						continue
+					}
+					switch x.Tok {
+					case token.SUB_ASSIGN:
+						if c, ok := constInt(info, x.Rhs[0]); !ok || c < 0 {
+							bad = true
+						}
+					case token.ASSIGN, token.DEFINE:
+						if k < len(x.Rhs) && exprStr(unparen(x.Rhs[k])) == "len("+bs+") - 1" {
+							inits++
+						} else {
+							bad = true
+						}
+					default:
+						bad = true
+					}
+				}
+			case *ast.IncDecStmt:
+				if lid := identOf(x.X); lid != nil && info.ObjectOf(lid) == obj && x.Tok == token.INC {
+					bad = true
+				}
+			case *ast.UnaryExpr:
+				if x.Op == token.AND {
+					if lid := identOf(x.X); lid != nil && info.ObjectOf(lid) == obj {
+						bad = true
+					}
+				}
+			}
+			return true
+		})
+		if bad || inits != 1 {
+			return false
+		}
+		// non-negativity: an earlier leaving test `i < 0`, or an enclosing condition `i >= 0`
+		nonNeg := false
+		isNeg := func(cond ast.Expr, want token.Token) bool {
+			be, ok := unparen(cond).(*ast.BinaryExpr)
+			if !ok {
+				return false
+			}
+			if be.Op == token.LAND && want == token.GEQ {
+				l, r := unparen(be.X), unparen(be.Y)
+				lb, lok := l.(*ast.BinaryExpr)
+				rb, rok := r.(*ast.BinaryExpr)
+				return lok && lb.Op == token.GEQ && exprStr(lb.X) == id.Name && exprStr(lb.Y) == "0" ||
+					rok && rb.Op == token.GEQ && exprStr(rb.X) == id.Name && exprStr(rb.Y) == "0"
+			}
+			return be.Op == want && exprStr(be.X) == id.Name && exprStr(be.Y) == "0"
+		}
+		var stack []ast.Node
+		ast.Inspect(fd.Body, func(n ast.Node) bool {
+			if n == nil {
+				stack = stack[:len(stack)-1]
+				return true
+			}
+			stack = append(stack, n)
+			if n != ast.Node(e) {
+				return true
+			}
+			for i := len(stack) - 2; i >= 0; i-- {
+				child := stack[i+1]
+				switch par := stack[i].(type) {
+				case *ast.IfStmt:
+					if par.Body == child && isNeg(par.Cond, token.GEQ) {
+						nonNeg = true
+					}
+				case *ast.ForStmt:
+					if par.Body == child && par.Cond != nil && isNeg(par.Cond, token.GEQ) {
+						nonNeg = true
+					}
+				case *ast.BlockStmt:
+					for _, st := range par.List {
+						if st == child {
+							break
+						}
+						if is, ok := st.(*ast.IfStmt); ok && is.Else == nil && blockTerminates(is.Body) && isNeg(is.Cond, token.LSS) {
+							nonNeg = true
+						}
+					}
+				case *ast.CaseClause:
+					for _, st := range par.Body {
+						if st == child {
+							break
+						}
+						if is, ok := st.(*ast.IfStmt); ok && is.Else == nil && blockTerminates(is.Body) && isNeg(is.Cond, token.LSS) {
+							nonNeg = true
+						}
+					}
+				}
+			}
+			return true
+		})
+		if !nonNeg {
+			return false
+		}
+	}
+	return len(idxs) > 0
+}
+
+// leavesAfter: the statement list that holds st ends, after st, in a return / continue / break / goto / panic.
+func leavesAfter(body *ast.BlockStmt, st ast.Stmt) bool {
+	res := false
+	ast.Inspect(body, func(n ast.Node) bool {
+		var list []ast.Stmt
+		switch b := n.(type) {
+		case *ast.BlockStmt:
+			list = b.List
+		case *ast.CaseClause:
+			list = b.Body
+		}
+		for i, s := range list {
+			if s == st {
+				res = blockTerminates(&ast.BlockStmt{List: list[i:]})
+			}
+		}
+		return true
+	})
+	return res
 }
